@@ -18,7 +18,7 @@ import (
 func init() {
 	Register(&Spec{
 		ID:           "C01",
-		Explanation:  "Decides a discipline-based necessary condition of memory safety of the read path, exhaustively over sites: (R1) Segment.data is indexed or sliced only inside the small kernel (slice, alloc, the two list-copy sites) and replaced only by alloc/setSegment; (R2) calls of the ...Unchecked arithmetic helpers occur only at the listed justified sites; (R3) the ok/err companion of every checked helper (addSize, element, times, resolve, totalListSize, dataAddress, primitiveElem, regionInBounds, lookupSegment, Message.Segment, canRead ...) reaches a branch that dominates every use of the paired value, blank-ignored only at listed sites; (R4) every call of a raw segment accessor (slice, read/writeUintN, read/writeRawPointer) has an address whose provenance is one of the enumerated justified forms (dominating regionInBounds on the same segment with constant offset+width inside the region, dataAddress/primitiveElem with the companion tested and the width within the requested size, pointerAddress under i < PointerCount, bit offset under bitInData, an object's own off/size pair, a fresh allocation, or a pointer-slot parameter whose callers are then obliged); (R5) Struct/List/Ptr values with a segment are constructed only in the listed functions, and the three readers construct them under a dominating regionInBounds on the constructed offset; (R6) the arithmetic and bounds kernel has the normal form recorded when the lemma was confirmed; (R7) the explicit panics reachable from the read API are the enumerated programmer-error ones. (R5u) the element address of a list read with another element size: every feasible success path of primitiveElem for a composite list carries both size comparisons (shared with C03-R3). Does NOT decide numeric correctness of extents beyond these guards, panics inside the standard library, memory growth or blocking readers.",
+		Explanation:  "Decides a discipline-based necessary condition of memory safety of the read path, exhaustively over sites: (R1) Segment.data is indexed or sliced only inside the small kernel (slice, alloc, the two list-copy sites) and replaced only by alloc/setSegment; (R2) calls of the ...Unchecked arithmetic helpers occur only at the listed justified sites; (R3) the ok/err companion of every checked helper (addSize, element, times, resolve, totalListSize, dataAddress, primitiveElem, regionInBounds, lookupSegment, Message.Segment, canRead ...) reaches a branch that dominates every use of the paired value, blank-ignored only at listed sites; (R4) every call of a raw segment accessor (slice, read/writeUintN, read/writeRawPointer) has an address whose provenance is one of the enumerated justified forms (dominating regionInBounds on the same segment with constant offset+width inside the region, dataAddress/primitiveElem with the companion tested and the width within the requested size, pointerAddress under i < PointerCount, bit offset under bitInData, an object's own off/size pair, a fresh allocation, or a pointer-slot parameter whose callers are then obliged); (R5) Struct/List/Ptr values with a segment are constructed only in the listed functions, and the three readers construct them under a dominating regionInBounds on the constructed offset; (R6) the arithmetic and bounds kernel has the normal form recorded when the lemma was confirmed; (R7) the explicit panics reachable from the read API are the enumerated programmer-error ones. (R5u) the element address of a list read with another element size: every feasible success path of primitiveElem for a composite list carries both size comparisons (shared with C03-R3). (R7o) address.addOffset only ever receives a schema field offset handed in by the caller, never a value computed from a list index; (R8) a constant-index call of a panicking element accessor inside the library is dominated by a length test of that list. (R9) every recursive reader of the deep-copy and traversal code passes on the depth limit of the object it reads (shared with C02-R6). Does NOT decide numeric correctness of extents beyond these guards, panics inside the standard library, memory growth or blocking readers.",
 		ExtraConfigs: true,
 		Run:          runC01,
 	})
@@ -33,6 +33,11 @@ func runC01(ctx *Ctx) {
 	// the element address of a list read with another element size stays inside
 	// the element: shared with C03-R3 (same obligations under this property's id)
 	ruleUpgradeAddress(ctx, "C01-R5u")
+	ruleElementIndexBounded(ctx, "C01-R8", "", "pogs", "encoding/text", "rpc", "server")
+	ruleSchemaOffsetsOnly(ctx, "C01-R7o")
+	// a deep copy out of a hostile message recurses on the source's depth limit
+	// (shared with C02-R6 under this property's id)
+	ruleReadPtrCallers(ctx, "C01-R9")
 	if ctx.Primary {
 		ruleKernelLemmas(ctx, "C01-R6", kernelLemmaFuncs)
 	}
@@ -124,6 +129,8 @@ var uncheckedSites = map[string]string{
 	"capnp.(*Segment).slice | addSizeUnchecked":         "slice is the choke point; its callers are judged by R4",
 	"capnp.(*Segment).writePtr | addSizeUnchecked":      "second word of a 16-byte landing pad just allocated",
 	"capnp.NewCompositeList | addSizeUnchecked":         "first element of a freshly allocated wordSize+total region",
+	"capnp.(BitList).At | addSizeUnchecked":             "byte i/8 of a bit list for an index already tested against its length (< 2^29): below the list's validated extent",
+	"capnp.(BitList).Set | addSizeUnchecked":            "byte i/8 of a bit list for an index already tested against its length (< 2^29): below the list's validated extent",
 	"capnp.newPrimitiveList | timesUnchecked":           "sz in [0,8], n in [0,1<<29) checked just above",
 	"capnp.(rawPointer).structSize | timesUnchecked":    "wordSize * uint16 cannot overflow",
 	"capnp.(rawPointer).totalListSize | timesUnchecked": "element size <= 8 and count < 1<<29",
@@ -421,9 +428,9 @@ var accessExemptByContent = map[string]string{
 	"capnp.canonicalStructSize | readRawPointer(pointerAddress(p0, uint16(phi)))":                            "pointerAddress(i) for i counting down from PointerCount-1 of a validated struct",
 	"capnp.Equal | slice(l1.off)": "data-only lists with equal length and element size: sz = size*length of validated lists",
 	"capnp.Equal | slice(l2.off)": "same extent as its sibling, equal length and element size were established above",
-	"capnp.NewCompositeList | writeRawPointer(alloc(p0, (8:Size + times(totalSize(p1), p2)#0))#1)":    "tag word at the start of the wordSize+total bytes just allocated",
-	"capnp.(BitList).At | readUint8(addOffset(p0.List.off, offset(BitOffset(p1))))":                   "bit i < length of a bit list: byte i/8 < bitListSize(length), the extent validated by readListPtr",
-	"capnp.(BitList).Set | slice(addOffset(p0.List.off, offset(BitOffset(p1))))":                      "bit i < length of a bit list allocated with bitListSize(length) bytes",
+	"capnp.NewCompositeList | writeRawPointer(alloc(p0, (8:Size + times(totalSize(p1), p2)#0))#1)": "tag word at the start of the wordSize+total bytes just allocated",
+	"capnp.(BitList).At | readUint8(addSizeUnchecked(p0.List.off, Size(offset(BitOffset(p1)))))":   "bit i < length of a bit list: byte i/8 < bitListSize(length), the extent validated by readListPtr",
+	"capnp.(BitList).Set | slice(addSizeUnchecked(p0.List.off, Size(offset(BitOffset(p1)))))":      "bit i < length of a bit list allocated with bitListSize(length) bytes",
 	"capnp.NewText | slice(l.List.off)":                                                               "len(v) bytes of the len(v)+1 bytes just allocated by NewUInt8List",
 	"capnp.NewTextFromBytes | slice(l.List.off)":                                                      "len(v) bytes of the len(v)+1 bytes just allocated",
 	"capnp.NewData | slice(l.List.off)":                                                               "len(v) bytes just allocated by NewUInt8List",
@@ -432,6 +439,33 @@ var accessExemptByContent = map[string]string{
 	"capnp.(*Segment).writePtr | writeRawPointer(alloc(p0, allocSize(l))#1)":                          "first word of the list just allocated with allocSize() bytes (includes the tag word)",
 	"capnp.copyStruct | readPtr(element(addSize(p1.off, p1.size.DataSize)#0, int32(phi), 8:Size)#0)":  "source pointer j < numSrcPtrs of a validated struct (pointer section start + 8j)",
 	"capnp.copyStruct | writePtr(element(addSize(p0.off, p0.size.DataSize)#0, int32(phi), 8:Size)#0)": "destination pointer j < numDstPtrs of a validated struct (pointer section start + 8j)",
+}
+
+// exemptByContent looks an access up in accessExemptByContent. A key whose
+// address is written with the source names of locals (l1.off) is compared in
+// the name-free form (expandWant / RenderValueR) when the reference tree
+// defines those locals; otherwise literally.
+func exemptByContent(fname, acc, addrNamed, addrResolved string) (string, bool) {
+	pre := fname + " | " + acc + "("
+	for k, why := range accessExemptByContent {
+		if !strings.HasPrefix(k, pre) || !strings.HasSuffix(k, ")") {
+			continue
+		}
+		inner := strings.TrimSuffix(strings.TrimPrefix(k, pre), ")")
+		if alts, full := expandWantAlts(fname, inner); full {
+			for _, wx := range alts {
+				if wx == addrResolved {
+					return why, true
+				}
+			}
+			if weakWant(alts) && inner == addrNamed {
+				return why, true
+			}
+		} else if inner == addrNamed {
+			return why, true
+		}
+	}
+	return "", false
 }
 
 func addrHead(a string) string {
@@ -474,10 +508,55 @@ func ruleGuardedAccess(ctx *Ctx, rule string) {
 		ord  int
 		seg  ssa.Value
 		addr ssa.Value
+		ai   int
 		w    int64
 		wArg ssa.Value
 	}
 	var sites []site
+	// liftAccess judges an access inside a helper that did not exist on the
+	// reference tree in the frame of each reference-tree function that reaches
+	// it: ssaq.Anchors lists the access there with its arguments rendered in
+	// the caller's frame and the atoms of the call chain added.
+	liftAccess := func(s site) (string, bool) {
+		if !ssaq.IsNew(s.f) {
+			return "", false
+		}
+		owners, ok := q.Attributed(s.f)
+		if !ok {
+			return "", false
+		}
+		n := 0
+		for _, on := range owners {
+			g := q.Func(on)
+			if g == nil {
+				return "", false
+			}
+			for _, a := range ssaq.Anchors(g) {
+				if a.Instr != ssa.Instruction(s.call) || s.ai >= len(a.Args) {
+					continue
+				}
+				n++
+				ws := ""
+				if s.wArg != nil && len(a.Args) > 2 {
+					ws = a.Args[2]
+				}
+				if _, ok := accessExemptByContent[fmt.Sprintf("%s | %s(%s)", on, s.name, a.Args[s.ai])]; ok {
+					continue
+				}
+				if classifyAccessStr(a.Args[0], a.Args[s.ai], a.Atoms, s.w, ws) != "" {
+					continue
+				}
+				if _, ok := looseExempt(on, s.name, a.Args[s.ai]); ok {
+					continue
+				}
+				return "", false
+			}
+		}
+		if n == 0 {
+			return "", false
+		}
+		return "new helper: justified in the frame of every call chain from " + strings.Join(owners, ", "), true
+	}
 	collect := func(targets map[string]int, addrIdx func(string) int) {
 		for _, f := range q.FuncsIn("") {
 			count := map[string]int{}
@@ -494,7 +573,7 @@ func ruleGuardedAccess(ctx *Ctx, rule string) {
 					short := cn[strings.LastIndex(cn, ".")+1:]
 					count[short]++
 					args := ci.Common().Args
-					s := site{f: f, call: ci, name: short, ord: count[short], seg: args[0], addr: args[addrIdx(cn)], w: int64(rawAccessors[cn])}
+					s := site{f: f, call: ci, name: short, ord: count[short], seg: args[0], addr: args[addrIdx(cn)], ai: addrIdx(cn), w: int64(rawAccessors[cn])}
 					if cn == "capnp.(*Segment).slice" {
 						s.wArg = args[2]
 						if k, ok := ssaq.ConstInt(args[2]); ok {
@@ -560,8 +639,7 @@ func ruleGuardedAccess(ctx *Ctx, rule string) {
 		fname := ssaq.FuncName(s.f)
 		key := fmt.Sprintf("%s | %s #%d", fname, s.name, s.ord)
 		pos := q.Pos(ssaq.InstrPos(s.call))
-		ckey := fmt.Sprintf("%s | %s(%s)", fname, s.name, ssaq.RenderValue(s.f, s.addr))
-		if why, ok := accessExemptByContent[ckey]; ok {
+		if why, ok := exemptByContent(fname, s.name, ssaq.RenderValue(s.f, s.addr), ssaq.RenderValueR(s.f, s.addr)); ok {
 			r.Exempt(rule, key, pos, why)
 			continue
 		}
@@ -582,6 +660,8 @@ func ruleGuardedAccess(ctx *Ctx, rule string) {
 			// exemption: an index expression rewritten inside it (i -> n-1)
 			// keeps the justification
 			r.Exempt(rule, key, pos, lw+" (matched on the address constructor)")
+		} else if lw, ok := liftAccess(s); ok {
+			r.Ok(rule, key, pos, lw)
 		} else {
 			r.Violation(rule, key, pos, fmt.Sprintf("raw segment access %s(%s) has no recognised justification: address %s is not covered by a dominating bounds guard on this segment (guards: %s)",
 				s.name, ssaq.RenderValue(s.f, s.seg), ssaq.RenderValue(s.f, s.addr), strings.Join(ssaq.DomAtoms(s.call), " && ")))
@@ -600,16 +680,6 @@ func ruleGuardedAccess(ctx *Ctx, rule string) {
 
 // classifyAccess returns the justification of an access of w bytes at addr in seg, or "".
 func classifyAccess(f *ssa.Function, at ssa.Instruction, seg, addr ssa.Value, w int64, wArg ssa.Value) string {
-	segS, addrS := ssaq.RenderValue(f, seg), ssaq.RenderValue(f, addr)
-	atoms := ssaq.DomAtoms(at)
-	has := func(s string) bool {
-		for _, a := range atoms {
-			if a == s {
-				return true
-			}
-		}
-		return false
-	}
 	// parameter?
 	if p, ok := addr.(*ssa.Parameter); ok {
 		for i, fp := range f.Params {
@@ -617,6 +687,25 @@ func classifyAccess(f *ssa.Function, at ssa.Instruction, seg, addr ssa.Value, w 
 				return fmt.Sprintf("param:%d", i)
 			}
 		}
+	}
+	ws := ""
+	if wArg != nil {
+		ws = ssaq.RenderValue(f, wArg)
+	}
+	return classifyAccessStr(ssaq.RenderValue(f, seg), ssaq.RenderValue(f, addr), ssaq.DomAtoms(at), w, ws)
+}
+
+// classifyAccessStr is classifyAccess on renderings: the segment, the address
+// and the dominating atoms may come from the frame of a caller when the access
+// lies in a helper that did not exist on the reference tree (ssaq.Anchors).
+func classifyAccessStr(segS, addrS string, atoms []string, w int64, ws string) string {
+	has := func(s string) bool {
+		for _, a := range atoms {
+			if a == s {
+				return true
+			}
+		}
+		return false
 	}
 	// J-region: regionInBounds(seg, A, K) with addr == A + c, c + w <= K
 	for _, a := range atoms {
@@ -703,9 +792,8 @@ func classifyAccess(f *ssa.Function, at ssa.Instruction, seg, addr ssa.Value, w 
 		}
 	}
 	// J-objslice: slice(x.seg, x.off, x.size.DataSize)
-	if w == -1 && wArg != nil && strings.HasSuffix(addrS, ".off") {
+	if w == -1 && ws != "" && strings.HasSuffix(addrS, ".off") {
 		obj := strings.TrimSuffix(addrS, ".off")
-		ws := ssaq.RenderValue(f, wArg)
 		if segS == obj+".seg" && ws == obj+".size.DataSize" {
 			return "an object's own data section (off, size.DataSize) under the construction invariant"
 		}
@@ -747,6 +835,99 @@ var constructors = map[string]string{
 	"capnp.(Interface).ToPtr":        "interface pointers carry no extent",
 }
 
+var readerConstructors = map[string]bool{"capnp.(*Segment).readStructPtr": true, "capnp.(*Segment).readListPtr": true, "capnp.(*Segment).root": true}
+
+// paramIndex: v is parameter number i of g (directly, or a load of the local
+// the parameter was spilled to); -1 otherwise.
+func paramIndex(g *ssa.Function, v ssa.Value) int {
+	if u, ok := v.(*ssa.UnOp); ok && u.Op == token.MUL {
+		if al, ok := u.X.(*ssa.Alloc); ok {
+			for _, b := range g.Blocks {
+				for _, in := range b.Instrs {
+					if st, ok := in.(*ssa.Store); ok && st.Addr == al {
+						if _, isParam := st.Val.(*ssa.Parameter); isParam && al.Comment == st.Val.Name() {
+							v = st.Val
+						}
+					}
+				}
+			}
+		}
+	}
+	for i, p := range g.Params {
+		if ssa.Value(p) == v {
+			return i
+		}
+	}
+	return -1
+}
+
+// liftConstruction judges an object construction (segment segV, offset offV, at
+// instruction at) inside the new helper g at g's call sites: every caller must
+// be a listed constructor (or again a new helper), and where the caller is one
+// of the readers the call must be dominated by regionInBounds on the segment
+// and offset it passes. The empty string means justified.
+func liftConstruction(q *ssaq.Q, g *ssa.Function, at ssa.Instruction, segV, offV ssa.Value, depth int) string {
+	if depth > 3 {
+		return "the chain of new helpers above it is too deep to follow"
+	}
+	guarded := func(fn *ssa.Function, in ssa.Instruction, seg, off ssa.Value) bool {
+		if off == nil {
+			return false
+		}
+		pre := "regionInBounds(" + ssaq.RenderValue(fn, seg) + ", " + ssaq.RenderValue(fn, off) + ", "
+		for _, a := range ssaq.DomAtoms(in) {
+			if strings.HasPrefix(a, pre) {
+				return true
+			}
+		}
+		return false
+	}
+	if guarded(g, at, segV, offV) {
+		return ""
+	}
+	si, oi := paramIndex(g, segV), -1
+	if offV != nil {
+		oi = paramIndex(g, offV)
+	}
+	edges := q.Callers(g)
+	if len(edges) == 0 {
+		return "the helper has no caller that establishes the bounds"
+	}
+	for _, e := range edges {
+		caller := e.Caller.Func
+		for caller.Parent() != nil {
+			caller = caller.Parent()
+		}
+		cn := ssaq.FuncName(caller)
+		args := e.Site.Common().Args
+		var seg2, off2 ssa.Value
+		if si >= 0 && si < len(args) {
+			seg2 = args[si]
+		}
+		if oi >= 0 && oi < len(args) {
+			off2 = args[oi]
+		}
+		switch {
+		case ssaq.IsNew(caller):
+			if seg2 == nil {
+				return "its segment is not handed in by the caller " + cn
+			}
+			if bad := liftConstruction(q, e.Caller.Func, e.Site, seg2, off2, depth+1); bad != "" {
+				return bad
+			}
+		case readerConstructors[cn]:
+			if seg2 == nil || off2 == nil || !guarded(e.Caller.Func, e.Site, seg2, off2) {
+				return "the call in " + cn + " at " + q.Pos(e.Site.Pos()) + " is not dominated by regionInBounds on the segment and offset it passes"
+			}
+		default:
+			if _, listed := constructors[cn]; !listed {
+				return "it is reached from " + cn + ", which is not one of the functions that establish the in-bounds invariant"
+			}
+		}
+	}
+	return ""
+}
+
 func ruleConstructionSites(ctx *Ctx, rule string) {
 	q := ssaq.For(ctx.Prog)
 	r := ctx.Rep
@@ -781,6 +962,25 @@ func ruleConstructionSites(ctx *Ctx, rule string) {
 				key := fmt.Sprintf("%s | constructs %s #%d", name, owner, k)
 				pos := q.Pos(ssaq.InstrPos(in))
 				why, ok := constructors[name]
+				if !ok && ssaq.IsNew(f) {
+					// a helper that did not exist on the reference tree: the
+					// construction is judged at the call sites, in the
+					// reference-tree functions that reach it
+					var offV ssa.Value
+					for _, in2 := range b.Instrs {
+						if st2, ok := in2.(*ssa.Store); ok {
+							if fa2, ok := st2.Addr.(*ssa.FieldAddr); ok && fa2.X == fa.X && core.FieldName(ssaq.FieldVar(fa2)) == "off" {
+								offV = st2.Val
+							}
+						}
+					}
+					if bad := liftConstruction(q, f, in, st.Val, offV, 0); bad != "" {
+						r.Violation(rule, key, pos, "a "+owner+" with a segment is constructed in a new helper and "+bad+": accessors trust off/size of every such value")
+					} else {
+						r.Ok(rule, key, pos, "new helper; every call site lies in a listed constructor, under its bounds test where that constructor is a reader")
+					}
+					continue
+				}
 				if !ok {
 					r.Violation(rule, key, pos, "a "+owner+" with a segment is constructed outside the functions that establish the in-bounds invariant: accessors trust off/size of every such value")
 					continue
